@@ -7,6 +7,7 @@ sys.path.insert(0, os.path.join(ROOT, "tools"))
 from framework import *  # noqa
 from gen import Gen, hexs, WS_BYTES  # noqa
 import refs  # noqa
+from build import REPO  # noqa
 
 PROPS = {}
 
@@ -1425,3 +1426,659 @@ def check_c15(res):
         if is_crash(a) or a != want:
             res.violations.append(Violation("arena-request-sequence", ln, "%s expected %s" % (a[:200], want[:200]), "00"))
     res.sample({"arena": lines[0]})
+
+
+# =============================================================================== C18
+@prop("C18")
+def check_c18(res):
+    thorough = res.tier == "thorough"
+    res.rule = ("documents from the core generator (no ^, #:, leading zeros, 0x, NrD, / or _ in numbers, extra escapes or "
+                "character names, triple quotes) read under the 4 flag combinations: canonical observations (value with kind "
+                "names, ranges, errors) must be identical pairwise; the model is checked on the same documents under each "
+                "flag set. non-trivial = distinct document")
+    g = Gen(res.seed * 31, core_only=True)
+    docs = [g.document(4) for _ in range(3000 if thorough else 1000)]
+    docs += [g.corrupt(g.document(3)) for _ in range(0)]
+    lines = [docline(d) for d in docs]
+    outs = {}
+    for cfg in CFGS:
+        impl, model = correspond(res, cfg, "san", lines, label="core-docs")
+        outs[cfg] = impl
+    for i, (d, ln) in enumerate(zip(docs, lines)):
+        res.nontrivial.add(d)
+        res.count("core-doc")
+        base = outs["00"][i]
+        if not base.startswith("OK "):
+            continue
+        for cfg in CFGS[1:]:
+            if outs[cfg][i] != base:
+                res.violations.append(Violation("core-document-reads-differently-with-flags", ln,
+                                                "flags %s: %s vs core %s" % (cfg, outs[cfg][i][:200], base[:200]), cfg))
+    # every single-byte character literal, every string with one escape letter
+    fam = [b"\\" + bytes([b]) + b" " for b in range(256)] + [b'"\\' + bytes([b]) + b'"' for b in range(256)]
+    flines = [docline(d) for d in fam]
+    fouts = {}
+    for cfg in CFGS:
+        impl, model = correspond(res, cfg, "san", flines, label="byte-families")
+        fouts[cfg] = impl
+    for i, (d, ln) in enumerate(zip(fam, flines)):
+        res.nontrivial.add(d)
+        res.count("byte-family")
+        base = fouts["00"][i]
+        if not base.startswith("OK ") or ":NULL@" in base:      # rejected, or escape the core decoder refuses
+            continue
+        for cfg in CFGS[1:]:
+            if fouts[cfg][i] != base:
+                kind = "core-document-reads-differently-with-flags"
+                if d in (b"\\\x0c ", b"\\\x08 ") and cfg in ("10", "11") and fouts[cfg][i].startswith("ERR INVALID_CHARACTER"):
+                    kind = "raw-formfeed-or-backspace-character-literal-rejected-with-clojure-flag"
+                res.violations.append(Violation(kind, ln, "%r flags %s: %s vs core %s" % (d, cfg, fouts[cfg][i][:100], base[:100]), cfg))
+    res.sample({"doc": lines[0][:120]})
+
+
+# =============================================================================== C19
+@prop("C19")
+def check_c19(res):
+    rnd = random.Random(res.seed)
+    thorough = res.tier == "thorough"
+    res.rule = ("(a) namespaced maps with mixed key kinds (unqualified / qualified / _-qualified keywords and symbols, other "
+                "kinds) x prefixes, compared with their explicit expansion (equality, dump without ranges), incl. keys that "
+                "collide after qualification; prefix validation; (b) metadata chains of length 1..6 over the five annotation "
+                "forms with overlapping keys on every target kind at every nesting position incl. directly before a closing "
+                "delimiter: merged map = expansions merged with outer winning (Python), gate on target/annotation kinds, "
+                "value / equality / hash of the target unchanged. non-trivial = distinct document")
+    for cfg in ("10", "11"):
+        scripts, meta = [], []
+        for _ in range(600 if thorough else 200):
+            ns = rnd.choice(["n", "my.ns", "a", "_x"])
+            entries, expanded = [], []
+            used = set()
+            for i in range(rnd.randrange(0, 7)):
+                kind = rnd.choice(["kw", "kwq", "kw_", "sym", "symq", "sym_", "str", "int", "vec"])
+                nm = "k%d" % rnd.randrange(0, 4)
+                if kind == "kw":
+                    k, x = ":" + nm, ":%s/%s" % (ns, nm)
+                elif kind == "kwq":
+                    q = rnd.choice(["other", ns])
+                    k = x = ":%s/%s" % (q, nm)
+                elif kind == "kw_":
+                    k, x = ":_/" + nm, ":" + nm
+                elif kind == "sym":
+                    k, x = nm, "%s/%s" % (ns, nm)
+                elif kind == "symq":
+                    q = rnd.choice(["other", ns])
+                    k = x = "%s/%s" % (q, nm)
+                elif kind == "sym_":
+                    k, x = "_/" + nm, nm
+                elif kind == "str":
+                    k = x = '"%s"' % nm
+                elif kind == "int":
+                    k = x = str(rnd.randrange(0, 4))
+                else:
+                    k = x = "[%s]" % nm
+                entries.append("%s %d" % (k, i))
+                expanded.append("%s %d" % (x, i))
+                used.add(x)
+            sp = rnd.choice(["", " ", "\n"])
+            d1 = ("#:%s%s{%s}" % (ns, sp, " ".join(entries))).encode()
+            d2 = ("{%s}" % " ".join(expanded)).encode()
+            scripts.append("script P0=%s;P1=%s;E0,1;E1,0;D0;D1;H0;H1" % (hexs(d1), hexs(d2)))
+            meta.append((d1, d2))
+        impl, model = correspond(res, cfg, "san", scripts, label="nsmap-vs-expansion")
+        for (d1, d2), ln, a in zip(meta, scripts, impl):
+            res.nontrivial.add(d1)
+            res.count("nsmap")
+            out = a.split(";")
+            if is_crash(a):
+                res.violations.append(Violation("nsmap-crash", ln, a, cfg))
+            elif out[0] != out[1] and not (out[0].startswith("err") and out[1].startswith("err")):
+                res.violations.append(Violation("namespaced-map-accepted-differently-from-expansion", ln,
+                                                "%r -> %s but %r -> %s" % (d1, out[0], d2, out[1]), cfg))
+            elif out[0] == "ok" and (out[2] != "1" or out[3] != "1" or out[4] != out[5] or out[6] != out[7]):
+                res.violations.append(Violation("namespaced-map-differs-from-expansion", ln, "%r vs %r: %s" % (d1, d2, a[:200]), cfg))
+        bad_prefix = [b"#:{:a 1}", b"#:a/b{:a 1}", b"#:a [1]", b"#:a", b"#: a{}", b"#:a{:b}", b"#:a{:b 1 :b 2}", b"#:a{:b 1 :a/b 2}"]
+        lines = [docline(d) for d in bad_prefix]
+        impl, model = correspond(res, cfg, "san", lines, label="nsmap-prefix")
+        for d, ln, a in zip(bad_prefix, lines, impl):
+            if not a.startswith("ERR "):
+                res.violations.append(Violation("invalid-namespaced-map-accepted", ln, "%r -> %s" % (d, a[:100]), cfg))
+        # metadata
+        anns = {"kw": lambda i: (":m%d" % i, [(":m%d" % i, "true")]),
+                "map": lambda i: ("{:m%d %d :shared %d}" % (i, i, i), [(":m%d" % i, str(i)), (":shared", str(i))]),
+                "str": lambda i: ('"T%d"' % i, [(":tag", '"T%d"' % i)]),
+                "sym": lambda i: ("Sym%d" % i, [(":tag", "Sym%d" % i)]),
+                "vec": lambda i: ("[p%d]" % i, [(":param-tags", "[p%d]" % i)])}
+        targets_ok = ["[1 2]", "(a b)", "{:k 1}", "#{1}", "#inst \"x\"", "sym", "ns/sym"]
+        targets_bad = ["1", '"s"', ":kw", "nil", "true", "\\c", "1.5"]
+        mlines, mmeta = [], []
+        for _ in range(800 if thorough else 250):
+            chain = [rnd.choice(list(anns)) for _ in range(rnd.randrange(1, 7))]
+            texts, exp_entries = [], []
+            for idx, kind in enumerate(chain):
+                i = rnd.randrange(0, 3)
+                t, ents = anns[kind](i)
+                texts.append(t)
+                for (k, v) in ents:
+                    if k not in [e[0] for e in exp_entries]:
+                        exp_entries.append((k, v))        # outer (earlier) wins
+            tgt = rnd.choice(targets_ok)
+            body = " ".join("^" + t for t in texts) + " " + tgt
+            pos = rnd.choice(["%s", "[0 %s]", "{:x %s}", "(%s)", "[[%s]]"])
+            d = (pos % body).encode()
+            mlines.append(docline(d))
+            mmeta.append(("ok", d, tgt, exp_entries, pos))
+        for tgt in targets_bad:
+            mlines.append(docline(("^:a " + tgt).encode()))
+            mmeta.append(("badtarget", None, tgt, None, None))
+        for ann in ["1", "(a)", "#{1}", "nil", "1.5", "\\c"]:
+            mlines.append(docline(("^" + ann + " [1]").encode()))
+            mmeta.append(("badann", None, ann, None, None))
+        for d in [b"[^:a]", b"[^]", b"{:k ^:a}", b"(^{:a 1})", b"^", b"^:a", b"#{^:a}", b"[^:a ^:b]"]:
+            mlines.append(docline(d))
+            mmeta.append(("missing", d, None, None, None))
+        impl, model = correspond(res, cfg, "san", mlines, label="metadata")
+        plain_lines, plain_idx = [], []
+        for idx, (mm, ln, a) in enumerate(zip(mmeta, mlines, impl)):
+            res.count("meta:" + mm[0])
+            if is_crash(a):
+                res.violations.append(Violation("metadata-crash", ln, a, cfg))
+                continue
+            if mm[0] != "ok":
+                if not a.startswith("ERR "):
+                    res.violations.append(Violation("metadata-%s-accepted" % mm[0], ln, "%s -> %s" % (mm[1] or mm[2], a[:100]), cfg))
+                continue
+            _, d, tgt, exp_entries, pos = mm
+            so = refs.split_obs(a)
+            if so[0] != "OK":
+                res.violations.append(Violation("metadata-chain-rejected", ln, "%r -> %s" % (d, a[:100]), cfg))
+                continue
+            root = refs.parse_dump(so[1])
+            node = root
+            for step in {"%s": [], "[0 %s]": [1], "{:x %s}": [1], "(%s)": [0], "[[%s]]": [0, 0]}[pos]:
+                node = node.kids[step]
+            if node.meta is None:
+                res.violations.append(Violation("metadata-not-attached", ln, "%r" % d, cfg))
+                continue
+            got = [(dump_of(node.meta.kids[2 * i]), dump_of(node.meta.kids[2 * i + 1])) for i in range(len(node.meta.kids) // 2)]
+            want_lines = [docline(("[" + " ".join(k + " " + v for k, v in exp_entries) + "]").encode())]
+            wobs = runner.run_impl(cfg, "prod", want_lines)[0]
+            wroot = refs.parse_dump(refs.split_obs(wobs)[1])
+            want = [(dump_of(wroot.kids[2 * i]), dump_of(wroot.kids[2 * i + 1])) for i in range(len(wroot.kids) // 2)]
+            if sorted(got) != sorted(want) or len(set(k for k, _ in got)) != len(got):
+                res.violations.append(Violation("metadata-merge-wrong", ln, "%r: attached %s, expected %s" % (d, got, want), cfg))
+        # transparency: equality and hash of the target unchanged
+        tl = []
+        for tgt in targets_ok:
+            d1 = ("[^{:a 1} ^:b " + tgt + "]").encode()
+            d2 = ("[" + tgt + "]").encode()
+            tl.append("script P0=%s;P1=%s;E0.0,1.0;E1.0,0.0;H0.0;H1.0;E0,1" % (hexs(d1), hexs(d2)))
+        impl, model = correspond(res, cfg, "san", tl, label="metadata-transparent")
+        for ln, a in zip(tl, impl):
+            out = a.split(";")
+            if is_crash(a) or out[2:4] != ["1", "1"] or out[4] != out[5] or out[6] != "1":
+                res.violations.append(Violation("metadata-changes-target-equality-or-hash", ln, a[:200], cfg))
+        res.sample({"cfg": cfg, "doc": mlines[0][:100]})
+
+
+# =============================================================================== C20
+def c20_blocks(rnd, n, thorough):
+    out = []
+    inds = [b"", b" ", b"  ", b"   ", b"    ", b"\t", b" \t", b"        ", b" " * 20]
+    for _ in range(n):
+        nl = rnd.choice([0, 0, 1, 1, 2, 3, 4, 5] + ([8, 12] if thorough else []))
+        lines = []
+        for _ in range(nl):
+            k = rnd.random()
+            ind = rnd.choice(inds)
+            if k < 0.15:
+                lines.append(b"")                     # empty line
+            elif k < 0.3:
+                lines.append(ind)                     # blank line with blanks
+            else:
+                body = bytes(rnd.choice(b"abcxyz \"\\{}:;#") for _ in range(rnd.choice([1, 2, 5, 10, 14, 15, 16, 17, 20, 33])))
+                body = body.lstrip(b" ")
+                body = body.replace(b'"""', b'""x').replace(b'\\"""', b"\\x")
+                for _ in range(rnd.choice([0, 0, 0, 1, 2, 3])):
+                    p = rnd.randrange(0, len(body) + 1)
+                    body = body[:p] + b'\\"""' + body[p:]
+                if not body:
+                    body = b"x"
+                lines.append(ind + body + rnd.choice([b"", b"", b" ", b" \t "]))
+        if rnd.random() < 0.6:
+            closing = rnd.choice(inds)                # closing delimiter on its own line
+            text = b"".join(l + b"\n" for l in lines) + closing
+        else:
+            # inline closing delimiter after the last line's content
+            if not lines or not lines[-1].strip(b" \t"):
+                lines.append(rnd.choice(inds) + b"end")
+            last = lines[-1].rstrip(b" \t")
+            if last.endswith((b'"', b"\\")):
+                last += b"x"
+            text = b"".join(l + b"\n" for l in lines[:-1]) + last
+        out.append(text)
+    return out
+
+
+@prop("C20")
+def check_c20(res):
+    rnd = random.Random(res.seed)
+    thorough = res.tier == "thorough"
+    res.rule = ("text blocks of 0..5 (thorough: ..12) lines: indentation 0..20 of spaces / tabs per line incl. 0 on the first "
+                "line, empty and blank-with-blanks lines, trailing blanks, 0..3 escaped triple quotes per line, closing delimiter "
+                "inline or on its own line at every indentation, lines crossing 16-byte blocks; oracle: Python reference of the "
+                "documented algorithm: exact bytes, exact length, NUL terminator, source range; equality / hash / duplicate "
+                "collision with the ordinary literal of the same content; unterminated blocks rejected. non-trivial = distinct block")
+    for cfg in ("01", "11"):
+        blocks = c20_blocks(rnd, 1500 if thorough else 500, thorough)
+        lines, meta = [], []
+        for b in blocks:
+            pre = rnd.choice([b"", b" ", b"[1 "])
+            post = b"]" if pre.startswith(b"[") else rnd.choice([b"", b" 2"])
+            d = pre + b'"""\n' + b + b'"""' + post
+            lines.append(docline(d))
+            meta.append((b, pre, post, d))
+        impl, model = correspond(res, cfg, "san", lines, label="text-blocks")
+        scripts, smeta = [], []
+        for (b, pre, post, d), ln, a in zip(meta, lines, impl):
+            res.nontrivial.add(b)
+            res.count("block")
+            if is_crash(a):
+                res.violations.append(Violation("text-block-crash", ln, a, cfg))
+                continue
+            ref = refs.textblock_ref(b + b'"""')
+            so = refs.split_obs(a)
+            if ref is None or ref[1] != len(b) + 3:
+                res.count("block-closes-early(skipped)")
+                continue
+            want, end = ref
+            if so[0] != "OK":
+                res.violations.append(Violation("text-block-rejected", ln, "%r -> %s" % (b[:80], a[:100]), cfg))
+                continue
+            root = refs.parse_dump(so[1])
+            node = root.kids[1] if pre.startswith(b"[") else root
+            parts = node.text.split(":")
+            got_get = parts[2] + ":" + parts[3] if len(parts) >= 4 else "?"
+            want_get = "%d:%s" % (len(want), hexs(want))
+            rs, re_ = len(pre), len(pre) + 4 + end
+            if node.kind != "str" or got_get != want_get or (node.s, node.e) != (rs, re_):
+                res.violations.append(Violation("text-block-content-length-or-range-wrong", ln,
+                                                "block %r: got %s@%d-%d expected %s@%d-%d" % (b[:80], got_get[:100], node.s, node.e, want_get[:100], rs, re_), cfg))
+                continue
+            # equality with the ordinary literal of the same content (only when it needs no escapes)
+            needs_esc = b'"' in want or b"\\" in want
+            if len(scripts) < 150 and (not needs_esc or len([1 for x in smeta if x[1]]) < 30):
+                lit = b'"' + want.replace(b"\\", b"\\\\").replace(b'"', b'\\"') + b'"'
+                scripts.append("script P0=%s;P1=%s;E0,1;E1,0;H0;H1;P2=%s" % (hexs(b'"""\n' + b + b'"""'), hexs(lit),
+                                                                             hexs(b"#{" + b'"""\n' + b + b'""" ' + lit + b"}")))
+                smeta.append((b, needs_esc))
+        impl, model = correspond(res, cfg, "san", scripts, label="text-block-vs-literal")
+        for (b, needs_esc), ln, a in zip(smeta, scripts, impl):
+            out = a.split(";")
+            res.count("block-vs-literal" + ("-with-escapes" if needs_esc else ""))
+            if is_crash(a) or out[2:4] != ["1", "1"] or out[4] != out[5] or not out[6].startswith("err:DUPLICATE"):
+                kind = "text-block-not-equal-to-escaped-spelling-of-same-content" if needs_esc and not is_crash(a) \
+                    else "text-block-not-equal-to-ordinary-literal"
+                res.violations.append(Violation(kind, ln, "%r: %s" % (b[:60], a[:200]), cfg))
+        # unterminated
+        ul = []
+        for b in blocks[:100]:
+            ul.append(docline(b'"""\n' + b))
+            ul.append(docline(b'"""\n' + b + b'"'))
+            ul.append(docline(b'"""\n' + b + b'""'))
+        impl, model = correspond(res, cfg, "san", ul, label="unterminated-blocks")
+        for ln, a in zip(ul, impl):
+            d = bytes.fromhex(ln.split()[1])
+            if refs.textblock_ref(d[4:]) is None and not a.startswith("ERR INVALID_STRING"):
+                res.violations.append(Violation("unterminated-text-block-accepted", ln, "%r -> %s" % (d[:80], a[:100]), cfg))
+        res.sample({"cfg": cfg, "block": lines[0][:120]})
+
+
+# =============================================================================== C03
+C03_ISOLATED = [
+    # (known-finding kind, document, value the published grammar gives it)
+    ("comment-ended-by-carriage-return-swallows-rest", b"[1 ;c\r2]", "(vec int:1 int:2)"),
+    ("comment-ended-by-carriage-return-swallows-rest", b";c\r7", "int:7"),
+    ("hash-inside-symbol-keyword-or-tag", b"a#b", "sym:~:612362"),
+    ("hash-inside-symbol-keyword-or-tag", b":a#", "kw:~:6123"),
+    ("hash-inside-symbol-keyword-or-tag", b"#t# 1", "(tag:7423 int:1)"),
+    ("double-colon-inside-identifier", b"a::b", "sym:~:613a3a62"),
+    ("double-colon-inside-identifier", b":a::b", "kw:~:613a3a62"),
+    ("non-ascii-character-literal-rejected", b"\\\xc3\xa9", "char:233"),
+    ("non-ascii-character-literal-rejected", b"\\\xe2\x82\xac", "char:8364"),
+]
+
+
+@prop("C03")
+def check_c03(res):
+    import ebnf, c03
+    rnd = random.Random(res.seed)
+    thorough = res.tier == "thorough"
+    res.rule = ("(a) value-first: abstract values of the EDN data model (depth <= 4) x 4 surface renderings each (white space kinds, "
+                "commas, comments, discards, sign / exponent / escape / \\uXXXX spellings): every rendering must read to the value "
+                "computed in Python (types, order and count, set of elements / entries, code points, namespace and name bytes, tags, "
+                "symbolic floats), in all 4 configurations, model run on the same documents; (b) grammar-first: random derivation "
+                "trees of docs/grammar/edn_grammar.ebnf (parsed from /repo at run time; elements separated by spacing; derivations "
+                "whose sets / maps contain equal elements, discard-of-discard, and the spellings under a recorded finding are "
+                "filtered from the clean stream) evaluated by an independent evaluator of the derivation tree; the recorded findings "
+                "are re-observed on isolated witnesses. non-trivial = distinct document")
+    vg = c03.ValueGen(rnd)
+    vals = []
+    while len(vals) < (600 if thorough else 200):
+        v = vg.value(rnd.choice([1, 2, 3, 4]))
+        e = vg.expect(v)
+        if not c03.has_dups(e):
+            vals.append((v, c03.canon(e)))
+    docs = []
+    for v, want in vals:
+        for _ in range(4):
+            docs.append((vg.trivia(False) + vg.render(v) + vg.trivia(False), want))
+    lines = [docline(d) for d, _ in docs]
+    for cfg in CFGS:
+        impl, model = correspond(res, cfg, "san", lines, label="value-renderings")
+        for (d, want), ln, a in zip(docs, lines, impl):
+            res.nontrivial.add(d)
+            res.count("rendering")
+            so = refs.split_obs(a)
+            if is_crash(a):
+                res.violations.append(Violation("rendering-crash", ln, a[:200], cfg))
+            elif so[0] != "OK":
+                res.violations.append(Violation("well-formed-document-rejected", ln, "%r -> %s" % (d[:120], a[:100]), cfg))
+            else:
+                got = c03.norm_impl(refs.parse_dump(so[1]))
+                if got != want:
+                    res.violations.append(Violation("document-read-to-a-different-value", ln,
+                                                    "%r: read %s, denotes %s" % (d[:120], got[:200], want[:200]), cfg))
+    # (b) the published grammar
+    rules = ebnf.load(os.path.join(REPO, "docs", "grammar", "edn_grammar.ebnf"))
+    dv = ebnf.Deriver(rules, res.seed)
+    gdocs = []
+    skipped = {}
+    target = 6000 if thorough else 2000
+    while len(gdocs) < target:
+        pre = dv.derive("Spacing", 3) if dv.r.random() < .3 else None
+        t = dv.derive("ReadableEdnElement", dv.r.choice([2, 3, 4, 5, 6, 7]))
+        post = dv.derive("Spacing", 3) if dv.r.random() < .3 else None
+        fs = set()
+        for x in (pre, t, post):
+            if x is not None:
+                c03.features(x, fs)
+        if fs:
+            for f in fs:
+                skipped[f] = skipped.get(f, 0) + 1
+            continue
+        disc = []
+        v = c03.ev(t, disc)
+        if len(v) != 1 or c03.has_dups(v[0]) or any(c03.has_dups(x) for x in disc):
+            skipped["equal-elements"] = skipped.get("equal-elements", 0) + 1
+            continue
+        gdocs.append(((pre.text if pre else b"") + t.text + (post.text if post else b""), c03.canon(v[0])))
+    for k, n in skipped.items():
+        res.count("derivation-filtered:" + k, n)
+    for k, n in dv.stats.items():
+        res.count("rule:" + k, n)
+    lines = [docline(d) for d, _ in gdocs]
+    for cfg in CFGS if thorough else ("00", "11"):
+        impl, model = correspond(res, cfg, "san", lines, label="grammar-derivations")
+        for (d, want), ln, a in zip(gdocs, lines, impl):
+            res.nontrivial.add(d)
+            res.count("derivation")
+            so = refs.split_obs(a)
+            if is_crash(a):
+                res.violations.append(Violation("derivation-crash", ln, a[:200], cfg))
+            elif so[0] != "OK":
+                res.violations.append(Violation("grammar-derivation-rejected", ln, "%r -> %s" % (d[:120], a[:100]), cfg))
+            else:
+                got = c03.norm_impl(refs.parse_dump(so[1]))
+                if got != want:
+                    res.violations.append(Violation("grammar-derivation-read-to-a-different-value", ln,
+                                                    "%r: read %s, grammar gives %s" % (d[:120], got[:200], want[:200]), cfg))
+    # recorded findings, re-observed on isolated witnesses
+    lines = [docline(d) for _, d, _ in C03_ISOLATED]
+    impl, model = correspond(res, "00", "san", lines, label="isolated-witnesses")
+    for (kind, d, want), ln, a in zip(C03_ISOLATED, lines, impl):
+        so = refs.split_obs(a)
+        got = c03.norm_impl(refs.parse_dump(so[1])) if so[0] == "OK" else a[:60]
+        if got != want:
+            res.violations.append(Violation(kind, ln, "%r: grammar gives %s, reader gives %s" % (d, want, got), "00"))
+    res.sample({"doc": lines[0][:100]})
+
+
+# =============================================================================== C17
+@prop("C17")
+def check_c17(res):
+    rnd = random.Random(res.seed)
+    thorough = res.tier == "thorough"
+    res.rule = ("generated / corrupted / junk documents x {registry, modes}: (a) the observation (tree or error code, message class, "
+                "positions) must be identical in the builds gcc -O0, -O1+ASan/UBSan, -O2, -O3, clang -O2 and equal to the model; "
+                "(b) in one process, each document is read first, again after N unrelated reads and frees, and once more at the end "
+                "of a shuffled stream: all three observations identical; (c) inputs mapped read-only flush against an unmapped page "
+                "(a write to the input faults); (d) 2..16 threads reading the same and different documents with one shared "
+                "registry under ThreadSanitizer: every dump equals the single-threaded dump, inputs unchanged, no race report. "
+                "non-trivial = distinct document")
+    for cfg in CFGS:
+        g = Gen(res.seed * 17 + int(cfg, 2), clj=cfg[0] == "1", exp=cfg[1] == "1")
+        docs = [g.document(4) for _ in range(500 if thorough else 150)]
+        docs += [g.corrupt(rnd.choice(docs)) for _ in range(300 if thorough else 100)]
+        docs += [g.junk(rnd.randrange(1, 40)) for _ in range(100 if thorough else 30)]
+        # sets / maps large enough for the sort- and hash-based duplicate strategies (address-ordered comparator)
+        for n in (17, 40, 200, 1001, 1200):
+            docs.append(b"#{" + b" ".join(rnd.choice([b"[%d]" % i, b"%d" % i, b"\"s%d\"" % i, b":k%d" % i, b"(%d x)" % i]) for i in range(n)) + b"}")
+            docs.append(b"#{" + b" ".join(b"[%d]" % (i % (n - 1)) for i in range(n)) + b"}")
+        regs = ["-", "inst:0,uuid:1,x:2", "my/tag:1,x:0"]
+        lines = [docline(d, reg=rnd.choice(regs), mode=rnd.randrange(3), eof=rnd.randrange(2)) for d in docs]
+        impl, model = correspond(res, cfg, "san", lines, label="docs")
+        base = impl
+        for d in docs:
+            res.nontrivial.add(d)
+        res.count("doc", len(docs))
+        # (a) builds
+        for kind in ("o0", "prod", "o3", "clang"):
+            other = runner.run_impl(cfg, kind, lines)
+            res.evaluations += len(lines)
+            res.count("build:" + kind, len(lines))
+            for ln, a, b in zip(lines, base, other):
+                if a != b:
+                    res.violations.append(Violation("result-differs-between-builds", ln, "san: %s | %s: %s" % (a[:160], kind, b[:160]), cfg))
+        # (b) history within one process
+        idx = list(range(len(lines)))
+        stream = list(idx)
+        second = list(idx)
+        rnd.shuffle(second)
+        stream += second
+        third = list(idx)
+        rnd.shuffle(third)
+        stream += third
+        for kind in ("prod", "san"):
+            outs = runner.run_impl(cfg, kind, [lines[i] for i in stream])
+            res.evaluations += len(stream)
+            res.count("history:" + kind, len(stream))
+            seen = {}
+            for i, o in zip(stream, outs):
+                if i in seen and seen[i] != o:
+                    res.violations.append(Violation("result-depends-on-earlier-reads", lines[i], "%s | later: %s" % (seen[i][:160], o[:160]), cfg))
+                seen.setdefault(i, o)
+                if o != base[i] and kind == "prod" and i not in seen:
+                    pass
+        # (c) read-only pages
+        ro = runner.run_impl(cfg, "prod", lines, guard=True)
+        res.evaluations += len(lines)
+        res.count("read-only-input", len(lines))
+        for ln, a, b in zip(lines, base, ro):
+            if a != b:
+                res.violations.append(Violation("result-differs-or-faults-on-read-only-input", ln, "%s | read-only: %s" % (a[:160], b[:160]), cfg))
+        # (d) threads under the race detector
+        tl = []
+        small = [d for d in docs if len(d) < 4000]
+        for _ in range(40 if thorough else 12):
+            n = rnd.choice([2, 3, 4, 8, 16])
+            k = rnd.choice([1, 1, 2, 3, n])
+            ds = [rnd.choice(small) for _ in range(min(k, 16))]
+            ds = [d for d in ds if d] or [b"[1 2 3]"]
+            tl.append("threads %d %s %s" % (n, ",".join(hexs(d) for d in ds), rnd.choice(regs)))
+        outs = runner.run_impl(cfg, "tsan", tl, extra_env={"TSAN_OPTIONS": "exitcode=66:halt_on_error=1:report_signal_unsafe=0"})
+        res.evaluations += len(tl)
+        res.count("threads", len(tl))
+        for ln, o in zip(tl, outs):
+            if not o.startswith("SAME |"):
+                res.violations.append(Violation("concurrent-readers-disagree-or-race", ln, o[:300], cfg))
+        res.sample({"cfg": cfg, "doc": lines[0][:100]})
+
+
+# =============================================================================== C02
+C02_FAMILIES = {
+    "list": (b"(", b")"), "vector": (b"[", b"]"), "map-value": (b"{1 ", b"}"), "set": (b"#{", b"}"),
+    "tag": (b"#t ", b""), "discard": (b"#_", b""), "mixed": None,
+}
+C02_FAMILIES_CLJ = {"meta": (b"^", b""), "meta-map": (b"^{:a 1} [", b"]"), "nsmap": (b"#:n{:a ", b"}")}
+
+
+def c02_nested(fam, depth, cfg, rnd):
+    if fam == "mixed":
+        openers = [(b"(", b")"), (b"[", b"]"), (b"{1 ", b"}"), (b"#{", b"}"), (b"#t ", b""), (b"#_ 0 ", b"")]
+        if cfg[0] == "1":
+            openers += [(b"^:m [", b"]"), (b"#:n{:a ", b"}")]
+        r2 = random.Random(depth)
+        seq = [r2.choice(openers) for _ in range(depth)]
+        return b"".join(o for o, _ in seq) + b"1" + b"".join(c for _, c in reversed(seq))
+    o, c = {**C02_FAMILIES, **C02_FAMILIES_CLJ}[fam]
+    core = b"1" if fam != "meta" else b"[]"
+    if fam == "discard":
+        return o * depth + b"1 " * depth + b"2"
+    if fam == "meta":
+        return b"^:a " * depth + b"[]"
+    return o * depth + core + c * depth
+
+
+@prop("C02")
+def check_c02(res):
+    rnd = random.Random(res.seed)
+    thorough = res.tier == "thorough"
+    res.rule = ("(a) nesting families {each opener, #tag, #_, ^x, mixed} x depths 1..10^5 (thorough: 10^6), incl. unterminated variants, read on a "
+                "thread with a 1 MiB stack and a guard page, CPU limit per batch: the call must return (value or error), never overflow "
+                "the stack; (b) time: documents of growing size n (wide collections with the sort / hash duplicate strategies, long tokens, "
+                "long comment and blank runs, deep-but-safe nesting): CPU time per read must stay under c*n*log n with a generous c; "
+                "(c) ratio operands: all pairs over the int64 boundary set {0, +-1, +-2, 2^31.., 2^62.., 2^63-1, -2^63} as literals and as "
+                "direct calls of the gcd, plus sampled interiors: returns, result = Python gcd; (d) all generated and corrupted documents "
+                "under the same stack and CPU limits, model run on the same documents (the model's fuel bound 8+4*len must never be hit). "
+                "non-trivial = distinct input")
+    depths_safe = [1, 2, 10, 50, 99, 100, 101, 200, 500]
+    depths_deep = [1000, 3000, 10000, 30000, 100000] + ([300000, 1000000] if thorough else [])
+    for cfg in CFGS:
+        fams = list(C02_FAMILIES) + (list(C02_FAMILIES_CLJ) if cfg[0] == "1" else [])
+        # shallow: implementation and model
+        lines, meta = [], []
+        for fam in fams:
+            for d in depths_safe:
+                doc = c02_nested(fam, d, cfg, rnd)
+                lines.append(docline(doc)); meta.append((fam, d, "closed"))
+                if fam not in ("discard", "tag", "meta"):
+                    lines.append(docline(doc[:len(doc) // 2 + 1])); meta.append((fam, d, "unterminated"))
+        impl, model = correspond(res, cfg, "san", lines, label="nesting-shallow")
+        outs = runner.run_impl(cfg, "prod", lines, extra_args=["--stack1m"])
+        for (fam, d, var), ln, a, b in zip(meta, lines, outs, impl):
+            res.nontrivial.add(ln)
+            res.count("nest:%s" % fam)
+            if is_crash(a) or a.startswith("MISSING"):
+                res.violations.append(Violation("stack-exhausted-by-nesting", ln, "%s depth %d (%s): %s" % (fam, d, var, a[:120]), cfg))
+            elif a != b:
+                res.violations.append(Violation("small-stack-read-differs", ln, "%s depth %d: %s vs %s" % (fam, d, a[:100], b[:100]), cfg))
+            elif var == "closed" and not a.startswith("OK "):
+                res.violations.append(Violation("nested-document-rejected", ln, "%s depth %d: %s" % (fam, d, a[:100]), cfg))
+        # deep: implementation only, 1 MiB stack
+        for fam in fams:
+            for d in depths_deep:
+                doc = c02_nested(fam, d, cfg, rnd)
+                for var, dd in (("closed", doc), ("unterminated", doc[:len(doc) // 2 + 1])):
+                    if var == "unterminated" and fam in ("discard", "tag", "meta"):
+                        continue
+                    ln = docline(dd)
+                    a = runner.run_impl(cfg, "prod", [ln], extra_args=["--stack1m"], timeout=300)[0]
+                    res.evaluations += 1
+                    res.nontrivial.add(ln)
+                    res.count("deep:%s" % fam)
+                    if is_crash(a) or a.startswith("MISSING"):
+                        res.violations.append(Violation("stack-exhausted-by-nesting", "doc <%s depth %d %s>" % (fam, d, var),
+                                                        "%s depth %d (%s), 1 MiB stack: %s" % (fam, d, var, a[:120]), cfg))
+                        break        # deeper ones of the same family fail alike
+                else:
+                    continue
+                break
+        # (b) time growth
+        import time as _t
+        shapes = {
+            "wide-set-ints": lambda n: b"#{" + b" ".join(b"%d" % i for i in range(n)) + b"}",
+            "wide-set-vectors": lambda n: b"#{" + b" ".join(b"[%d]" % i for i in range(n)) + b"}",
+            "wide-map-strings": lambda n: b"{" + b" ".join(b"\"k%d\" %d" % (i, i) for i in range(n)) + b"}",
+            "wide-vector": lambda n: b"[" + b" ".join(b"%d" % i for i in range(n)) + b"]",
+            "long-string": lambda n: b'"' + b"a\\n" * n + b'"',
+            "long-symbol": lambda n: b"a" * (4 * n),
+            "long-integer": lambda n: b"1" * (2 * n),
+            "long-float": lambda n: b"1." + b"5" * (2 * n),
+            "blank-run": lambda n: b" ," * (2 * n) + b"1",
+            "comment-lines": lambda n: b";c\n" * n + b"1",
+            "many-newlines-then-error": lambda n: b"\n" * (3 * n) + b")",
+            "nested-sets": lambda n: b"#{" * 60 + b" ".join(b"%d" % i for i in range(n)) + b"}" * 60,
+        }
+        sizes = [2000, 8000, 32000] + ([128000] if thorough else [])
+        for name, mkdoc in shapes.items():
+            times = []
+            for n in sizes:
+                ln = docline(mkdoc(n))
+                t0 = _t.time()
+                a = runner.run_impl(cfg, "prod", [ln], timeout=120)[0]
+                dt = _t.time() - t0
+                res.evaluations += 1
+                res.count("time:%s" % name)
+                times.append((n, len(ln) // 2, dt))
+                if is_crash(a) or a.startswith("MISSING"):
+                    res.violations.append(Violation("read-does-not-return-in-time", "doc <%s n=%d>" % (name, n), "%s n=%d: %s" % (name, n, a[:100]), cfg))
+            # growth between the two largest sizes must be sub-quadratic: t(4n) <= 8*t(n) + slack
+            (n1, l1, t1), (n2, l2, t2) = times[-2], times[-1]
+            if t2 > 8.0 * max(t1, 0.02) + 0.15:
+                res.violations.append(Violation("read-time-grows-quadratically", "doc <%s>" % name,
+                                                "%s: %.2fs at n=%d, %.2fs at n=%d" % (name, t1, n1, t2, n2), cfg))
+            res.sample({"cfg": cfg, "shape": name, "times": [(n, round(t, 3)) for n, _, t in times]})
+        # (c) ratio operands
+        if cfg[0] == "1":
+            B = sorted(set([0, 1, 2, 3, 2 ** 31 - 1, 2 ** 31, 2 ** 32, 2 ** 62, 2 ** 63 - 2, 2 ** 63 - 1] +
+                           [-x for x in [1, 2, 3, 2 ** 31, 2 ** 32, 2 ** 62, 2 ** 63 - 1, 2 ** 63]]))
+            import math
+            gl, gm = [], []
+            for a in B:
+                for b in B:
+                    if b > 0:
+                        gl.append("gcd %d %d" % (a, b)); gm.append((a, b))
+            for _ in range(300 if thorough else 100):
+                a = rnd.randrange(-2 ** 63, 2 ** 63); b = rnd.randrange(1, 2 ** 63)
+                gl.append("gcd %d %d" % (a, b)); gm.append((a, b))
+            impl, model = correspond(res, cfg, "san", gl, label="gcd")
+            for (a, b), ln, o in zip(gm, gl, impl):
+                res.count("gcd")
+                res.nontrivial.add(ln)
+                if is_crash(o) or o.strip() != str(math.gcd(a, b)):
+                    res.violations.append(Violation("gcd-wrong-or-does-not-return", ln, "gcd(%d,%d) -> %s, expected %d" % (a, b, o[:60], math.gcd(a, b)), cfg))
+            rl = []
+            for a in B:
+                for b in B:
+                    if b > 0:
+                        rl.append(docline(b"%d/%d" % (a, b)))
+            impl, model = correspond(res, cfg, "san", rl, label="ratio-literals")
+            for ln, o in zip(rl, impl):
+                res.count("ratio-literal")
+                res.nontrivial.add(ln)
+                if is_crash(o):
+                    res.violations.append(Violation("ratio-literal-crash-or-hang", ln, o[:120], cfg))
+        # (d) generated documents under the limits
+        g = Gen(res.seed * 13 + int(cfg, 2), clj=cfg[0] == "1", exp=cfg[1] == "1")
+        docs = [g.document(5) for _ in range(400 if thorough else 150)]
+        docs += [g.corrupt(rnd.choice(docs)) for _ in range(300 if thorough else 100)]
+        lines = [docline(d) for d in docs]
+        impl, model = correspond(res, cfg, "san", lines, label="docs")
+        outs = runner.run_impl(cfg, "prod", lines, extra_args=["--stack1m"])
+        for ln, a, b, mo in zip(lines, outs, impl, model):
+            res.nontrivial.add(ln)
+            res.count("doc")
+            if is_crash(a) or a != b:
+                res.violations.append(Violation("small-stack-read-differs", ln, "%s vs %s" % (a[:100], b[:100]), cfg))
+            if "FUEL" in mo or "OutOfFuel" in mo:
+                res.violations.append(Violation("model-fuel-bound-hit", ln, mo[:100], cfg))
